@@ -66,3 +66,80 @@ package xmodel
 //@ func github.com/xuperchain/xupercore/bcs/ledger/xledger/ledger.Ledger.QueryBlockHeader
 //@   noverify
 //@   pure
+
+// ======================= C03: key versions are consumed once =======================
+// The textual form of a version is a function of (txid, offset).
+//@ func MakeVersion
+//@   noverify
+//@   pure
+//@ macro verOfInput(in) = (in.RefTxid == nil ? "" : MakeVersion(in.RefTxid, in.RefOffset))
+//@ macro verOfData(d) = (d.RefTxid == nil ? "" : MakeVersion(d.RefTxid, d.RefOffset))
+//@ macro rawKeyOf(b, k) = b + "/" + str(k)
+// cachedVer(s, rk): what the batch cache holds for a raw key (nil: nothing).
+//@ macro cachedVer(s, rk) = sel(sel(syncVal, s.batchCache), boxed(rk))
+
+// The batch cache belongs to exactly one batch: switching to another batch starts
+// from an empty cache, staying on the same batch keeps it.
+//@ func XModel.cleanCache
+//@   property C03
+//@   ensures cache_is_of_this_batch: s.lastBatch == newBatch
+//@   ensures other_batch_starts_empty: old(s.lastBatch) != newBatch ==> (forall k iface :: sel(sel(syncVal, s.batchCache), k) == nil)
+//@   ensures same_batch_keeps_cache: old(s.lastBatch) == newBatch ==> s.batchCache == old(s.batchCache) && syncVal == old(syncVal)
+
+// fetchVersionedData resolves a version to the output that carries it (LRU cache,
+// else the writing transaction): ASSUMED to return data of exactly the asked version.
+//@ func XModel.fetchVersionedData
+//@   noverify
+//@   noeffects
+//@   assumes data_of_the_asked_version: result1 == nil ==> result0 != nil && result0.RefTxid != nil && MakeVersion(result0.RefTxid, result0.RefOffset) == version
+
+// The version a transaction is checked against: the one written earlier in this
+// batch if there is one, else the committed one.
+//@ func XModel.GetUncommited
+//@   property C03
+//@   let ck = cachedVer(s, rawKeyOf(bucket, key))
+//@   ensures written_in_this_batch_wins: ck != nil && result1 == nil ==> result0 != nil && verOfData(result0) == unboxStr(ck)
+//@   ensures else_the_committed_version: ck == nil ==> result0 == s.Get(bucket, key) && result1 == s.Get#1(bucket, key)
+//@   ensures batch_cache_untouched: sel(syncVal, s.batchCache) == old(sel(syncVal, s.batchCache)) && s.batchCache == old(s.batchCache)
+
+// A transaction passes only if every key input cites the version the key currently
+// has: for a block transaction the one written earlier in the same batch if any, else
+// the committed one; for a pool transaction (no Blockid, a batch of its own) the
+// committed one - never what an earlier batch left in the cache.
+//@ macro curVer(s, tx, in) = (len(tx.Blockid) > 0 && cachedVer(s, rawKeyOf(in.Bucket, in.Key)) != nil ? unboxStr(cachedVer(s, rawKeyOf(in.Bucket, in.Key))) : verOfData(s.Get(in.Bucket, in.Key)))
+//@ func XModel.verifyInputs
+//@   property C03
+//@   ensures every_cited_version_is_current: result == nil ==> (forall i int :: 0 <= i && i < len(tx.TxInputsExt) ==> curVer(s, tx, tx.TxInputsExt[i]) == verOfInput(tx.TxInputsExt[i]))
+//@   ensures read_only: sel(syncVal, s.batchCache) == old(sel(syncVal, s.batchCache)) && s.batchCache == old(s.batchCache)
+//@   loop 1 invariant checked_so_far: 0 <= $i && $i <= len(tx.TxInputsExt) && sel(syncVal, s.batchCache) == old(sel(syncVal, s.batchCache)) && s.batchCache == old(s.batchCache) && (forall i int :: 0 <= i && i < $i ==> curVer(s, tx, tx.TxInputsExt[i]) == verOfInput(tx.TxInputsExt[i]))
+
+// A transaction passes only if every key it writes (transient bucket aside) is among
+// the keys it read, and it writes no nil value.
+//@ func XModel.verifyOutputs
+//@   property C03
+//@   ensures writes_only_keys_it_read: result == nil ==> (forall o int :: 0 <= o && o < len(tx.TxOutputsExt) && tx.TxOutputsExt[o].Bucket != TransientBucket ==> tx.TxOutputsExt[o].Value != nil && (exists i int :: 0 <= i && i < len(tx.TxInputsExt) && rawKeyOf(tx.TxInputsExt[i].Bucket, tx.TxInputsExt[i].Key) == rawKeyOf(tx.TxOutputsExt[o].Bucket, tx.TxOutputsExt[o].Key)))
+//@   loop 1 invariant keys_read: 0 <= $i && $i <= len(tx.TxInputsExt) && inputKeys != nil && (forall k string :: in(inputKeys, k) && inputKeys[k] ==> (exists i int :: 0 <= i && i < $i && rawKeyOf(tx.TxInputsExt[i].Bucket, tx.TxInputsExt[i].Key) == k))
+//@   loop 2 invariant outputs_checked: 0 <= $i && $i <= len(tx.TxOutputsExt) && inputKeys != nil && (forall k string :: in(inputKeys, k) && inputKeys[k] ==> (exists i int :: 0 <= i && i < len(tx.TxInputsExt) && rawKeyOf(tx.TxInputsExt[i].Bucket, tx.TxInputsExt[i].Key) == k)) && (forall o int :: 0 <= o && o < $i && tx.TxOutputsExt[o].Bucket != TransientBucket ==> tx.TxOutputsExt[o].Value != nil && (exists i int :: 0 <= i && i < len(tx.TxInputsExt) && rawKeyOf(tx.TxInputsExt[i].Bucket, tx.TxInputsExt[i].Key) == rawKeyOf(tx.TxOutputsExt[o].Bucket, tx.TxOutputsExt[o].Key)))
+
+// Committing the write set: for a block transaction every written key ends up in the
+// batch cache at the version of the LAST output of this transaction that writes it
+// (deletes included), so that later transactions of the same block are checked
+// against it; the step itself cannot fail.
+//@ macro outKey(tx, o) = rawKeyOf(tx.TxOutputsExt[o].Bucket, tx.TxOutputsExt[o].Key)
+//@ macro nonTransient(tx, o) = tx.TxOutputsExt[o].Bucket != TransientBucket
+//@ macro cachedUpTo(s, tx, n) = (forall o int :: 0 <= o && o < n && nonTransient(tx, o) ==> (exists o2 int :: o <= o2 && o2 < n && nonTransient(tx, o2) && outKey(tx, o2) == outKey(tx, o) && cachedVer(s, outKey(tx, o)) == boxed(MakeVersion(tx.Txid, o2))))
+//@ func XModel.updateExtUtxo
+//@   property C03
+//@   ensures never_fails: result == nil
+//@   ensures written_versions_cached: len(tx.Blockid) > 0 ==> cachedUpTo(s, tx, len(tx.TxOutputsExt))
+//@   loop 1 invariant cached_so_far: 0 <= $i && $i <= len(tx.TxOutputsExt) && s.batchCache == old(s.batchCache) && (len(tx.Blockid) > 0 ==> cachedUpTo(s, tx, $i))
+
+// Admission: the cache consulted is the cache of THIS batch, both checks pass before
+// anything is written, and a refused transaction writes nothing.
+//@ func XModel.DoTx
+//@   property C03
+//@   local err error
+//@   at XModel.verifyInputs assert cache_is_of_this_batch: (len(tx.Blockid) > 0 ==> s.lastBatch == batch) && $0 == tx
+//@   at XModel.verifyOutputs assert same_transaction: $0 == tx
+//@   at XModel.updateExtUtxo assert only_after_both_checks: err == nil && $0 == tx && $1 == batch
+//@   ensures refused_writes_nothing: result != nil ==> batchOp == old(batchOp) && batchVal == old(batchVal)
